@@ -242,3 +242,7 @@ def _notes_witness(tier, seed):
                                 detail=f"got {got!r}, statement prescribes {exp!r}")
     return None
 
+
+# supplier units (see props/suppliers.py): time_notes assumes time_at / hittable and NoteData.__iter__ by contract
+from props import suppliers as _S   # noqa: E402
+UNITS = _S.extend(UNITS, _S.engine_core(), _S.note_readers())
